@@ -1,27 +1,39 @@
 #!/usr/bin/env python3
-"""Apply every kept seeded change to /repo in turn, run the property's quick check, undo, and record what was caught.
+"""Apply every kept seeded change in turn to a scratch worktree of /repo (HEAD), run the property's quick check against that tree (LVC_REPO), undo, and record what was caught.
+W workers (default 4), one scratch worktree under /tmp each (removed at the end); seeds of one property are handled by one worker.  /repo itself is never touched.
 Writes seeded/<id>/meta.json (adds a `verif` section) and seeded/RESULTS.md.  Developer tool, not a registered command."""
-import json, os, re, subprocess, sys
+import json, os, re, shutil, subprocess, sys
+from concurrent.futures import ThreadPoolExecutor
 ROOT = os.path.dirname(os.path.dirname(os.path.abspath(__file__)))
+# the checks run from a snapshot of /verif taken now (so the machinery can be edited while this runs); results are written to the real tree
+SNAP = f"/tmp/lvc_snap_{os.getpid()}"
+subprocess.run(["rsync", "-a", "--delete", "--exclude", ".git", "--exclude", "replays", "--exclude", ".venv", "--exclude", "seeded", "--exclude", "refactors", ROOT + "/", SNAP + "/"], check=True)
+os.symlink(os.path.join(ROOT, ".venv"), os.path.join(SNAP, ".venv"))
 ids = sorted(d for d in os.listdir(os.path.join(ROOT, "seeded")) if os.path.isdir(os.path.join(ROOT, "seeded", d)))
-only = sys.argv[1:]
-rows = []
+args = sys.argv[1:]
+W = 4
+if args and args[0].startswith("-j"):
+    W = int(args.pop(0)[2:])
+only = args
+ids = [i for i in ids if not only or i in only]
+groups = {}
 for sid in ids:
-    if only and sid not in only:
-        continue
+    groups.setdefault(sid.split("-")[0], []).append(sid)
+
+
+def one(wt, rp, sid):
     d = os.path.join(ROOT, "seeded", sid)
     patch = os.path.join(d, "patch.diff")
-    assert subprocess.run(["git", "-C", "/repo", "status", "--porcelain"], capture_output=True, text=True).stdout.strip() == "", "/repo not clean"
-    ap = subprocess.run(["git", "-C", "/repo", "apply", patch], capture_output=True, text=True)
+    ap = subprocess.run(["git", "-C", wt, "apply", patch], capture_output=True, text=True)
     if ap.returncode != 0:
-        rows.append((sid, "PATCH DOES NOT APPLY", "", ""))
-        continue
+        return (sid, "PATCH DOES NOT APPLY", "", "")
+    env = {**os.environ, "JAX_PLATFORMS": "cpu"}
     try:
-        demo = subprocess.run(["/venv/bin/python", os.path.join(d, "demo.py")], capture_output=True, text=True, env={**os.environ, "PYTHONPATH": "/repo/src", "JAX_PLATFORMS": "cpu"}, timeout=1200)
+        demo = subprocess.run(["/venv/bin/python", os.path.join(d, "demo.py")], capture_output=True, text=True, env={**env, "PYTHONPATH": wt + "/src"}, timeout=1800)
         prop = sid.split("-")[0]
-        r = subprocess.run([os.path.join(ROOT, "check"), prop, "--no-evidence"], capture_output=True, text=True, cwd=ROOT, timeout=1800)
+        r = subprocess.run([os.path.join(SNAP, "check"), prop, "--no-evidence", "--jobs", "6"], capture_output=True, text=True, cwd=SNAP, timeout=3600, env={**env, "LVC_REPO": wt, "LVC_REPLAY_DIR": rp})
     finally:
-        subprocess.run(["git", "-C", "/repo", "checkout", "--", "."], check=True)
+        subprocess.run(["git", "-C", wt, "checkout", "--", "."], check=True)
     viol = re.findall(r"VIOLATION property=\S+ replay=\S*/([^/\s]+)\.json( no-failing-input-found)?", r.stdout)
     summ = [l for l in r.stdout.splitlines() if re.match(r"^C\d+ \[", l)]
     replayed = sum(1 for _, s in viol if not s)
@@ -29,11 +41,40 @@ for sid in ids:
     meta = json.load(open(meta_p)) if os.path.exists(meta_p) else {}
     meta["verif"] = dict(check=f"./check {sid.split('-')[0]} --tier quick", exit_code=r.returncode, caught=r.returncode == 1, failed_obligations=[v for v, _ in viol][:12],
                          violations_with_native_replay=replayed, demo_exit_with_patch=demo.returncode, summary=summ[-1] if summ else "",
-                         confirmed="patch applied to /repo working tree (git apply), demo.py run with PYTHONPATH=/repo/src (fails with the patch; passes without, checked by tools/keep_seed.sh), quick check run, patch reverted (git checkout -- .)")
+                         confirmed="patch applied to a scratch worktree of /repo HEAD (git apply), demo.py run with PYTHONPATH=<worktree>/src (fails with the patch; passes without, checked by tools/keep_seed.sh), quick check run against that tree, patch reverted")
     json.dump(meta, open(meta_p, "w"), indent=1)
-    rows.append((sid, "caught" if r.returncode == 1 else f"NOT caught (exit {r.returncode})", f"{len(viol)} obligations ({replayed} replayed natively)", ", ".join(v for v, _ in viol[:3])))
-    print(rows[-1], flush=True)
-with open(os.path.join(ROOT, "seeded", "RESULTS.md"), "w") as f:
-    f.write("| seed | verdict of ./check <id> --tier quick | failed obligations | first obligations |\n|---|---|---|---|\n")
-    for row in rows:
-        f.write("| " + " | ".join(row) + " |\n")
+    row = (sid, "caught" if r.returncode == 1 else f"NOT caught (exit {r.returncode})", f"{len(viol)} obligations ({replayed} replayed natively)", ", ".join(v for v, _ in viol[:3]))
+    print(row, flush=True)
+    return row
+
+
+def worker(w, props):
+    wt, rp = f"/tmp/lvc_seed_wt{w}", f"/tmp/lvc_seed_rp{w}"
+    subprocess.run(["git", "-C", "/repo", "worktree", "remove", "--force", wt], capture_output=True)
+    subprocess.run(["git", "-C", "/repo", "worktree", "add", "--detach", wt, "HEAD"], check=True, capture_output=True)
+    rows = []
+    try:
+        for p in props:
+            for sid in groups[p]:
+                try:
+                    rows.append(one(wt, rp, sid))
+                except Exception as e:
+                    rows.append((sid, f"TOOL ERROR {type(e).__name__}: {e}"[:120], "", ""))
+                    subprocess.run(["git", "-C", wt, "checkout", "--", "."])
+    finally:
+        subprocess.run(["git", "-C", "/repo", "worktree", "remove", "--force", wt], capture_output=True)
+        shutil.rmtree(rp, ignore_errors=True)
+    return rows
+
+
+props = sorted(groups, key=lambda p: -len(groups[p]))
+parts = [props[w::W] for w in range(W)]
+with ThreadPoolExecutor(W) as ex:
+    rows = [r for part in ex.map(worker, range(W), parts) for r in part]
+rows.sort()
+if not only:
+    with open(os.path.join(ROOT, "seeded", "RESULTS.md"), "w") as f:
+        f.write("| seed | verdict of ./check <id> --tier quick | failed obligations | first obligations |\n|---|---|---|---|\n")
+        for row in rows:
+            f.write("| " + " | ".join(row) + " |\n")
+shutil.rmtree(SNAP, ignore_errors=True)
